@@ -299,3 +299,163 @@ package evaluator
 //@   loop 1
 //@     invariant isArr(x0) && x == arr(x0)
 //@     invariant forall k Int :: {at(heap, x, k)} 0 <= k && k < iter ==> !specEq(heap, at(heap, x, k), y)
+
+// ---------------------------------------------------------------------------
+// projections (C01, C17, C19, C15): isEv is the graph of evaluate (a relation between the root,
+// the node, the current value, the scope and a result); the helpers are specified relative to it.
+// log<N>[k] / log<N>e[k] are the results of the N-th evaluate call site in the k-th iteration.
+
+//@ ghost isEv(root Val, node Iface, cur Val, scope Int, r Val) Bool
+//@ ghost nn(L ValArr, n Int) Int = ite(n <= 0, 0, nn(L, n - 1) + ite(L[n - 1] == nil, 0, 1))
+//@ axiom forall L ValArr, n Int, i Int, v Val :: {nn(upd(L, i, v), n)} i >= n ==> nn(upd(L, i, v), n) == nn(L, n)
+//@ axiom forall L ValArr, n Int :: {nn(L, n)} 0 <= nn(L, n) && (n >= 0 ==> nn(L, n) <= n)
+//@ axiom forall L ValArr, k Int, n Int :: {nn(L, k), nn(L, n)} 0 <= k && k < n && L[k] != nil ==> nn(L, k) < nn(L, n)
+//@ axiom forall L ValArr, k Int, n Int :: {nn(L, k), nn(L, n)} k <= n ==> nn(L, k) <= nn(L, n)
+
+//@ func evaluator.evaluate
+//@   tags C01
+//@   defines err != nil ==> result == nil
+//@   defines err == nil ==> isEv(e.root, node, current, variables, result)
+
+//@ func evaluator.projectArray
+//@   tags C01 C17 C19 C15 C18 C03 C06
+//@   ensures nonarray: !isArr(value) ==> result == nil && err == nil
+//@   ensures failure: err != nil ==> result == nil
+//@   ensures kind: isArr(value) && err == nil ==> isArr(result) && fresh(arr(result))
+//@   ensures[C01 C17 C19] elems: isArr(value) && err == nil ==> (forall k Int :: 0 <= k && k < len(arr(value)) ==> isEv(e.root, node, arr(value)[k], variables, log1[k]))
+//@   ensures[C01 C17] count: isArr(value) && err == nil ==> len(arr(result)) == nn(log1, len(arr(value)))
+//@   ensures[C01 C17] order: isArr(value) && err == nil ==> (forall k Int :: 0 <= k && k < len(arr(value)) && log1[k] != nil ==> arr(result)[nn(log1, k)] == log1[k])
+//@   loop 1
+//@     invariant isArr(value0) && a == arr(value0) && fresh(r)
+//@     invariant forall k Int :: 0 <= k && k < iter ==> isEv(e.root, node, a[k], variables, log1[k])
+//@     invariant len(r) == nn(log1, iter)
+//@     invariant forall k Int :: 0 <= k && k < iter && log1[k] != nil ==> r[nn(log1, k)] == log1[k]
+
+//@ ghost nt(L ValArr, n Int) Int = ite(n <= 0, 0, nt(L, n - 1) + ite(truthy(L[n - 1]), 1, 0))
+//@ axiom forall L ValArr, n Int, i Int, v Val :: {nt(upd(L, i, v), n)} i >= n ==> nt(upd(L, i, v), n) == nt(L, n)
+//@ axiom forall L ValArr, n Int :: {nt(L, n)} 0 <= nt(L, n) && (n >= 0 ==> nt(L, n) <= n)
+//@ axiom forall L ValArr, k Int, n Int :: {nt(L, k), nt(L, n)} 0 <= k && k < n && truthy(L[k]) ==> nt(L, k) < nt(L, n)
+//@ axiom forall L ValArr, k Int, n Int :: {nt(L, k), nt(L, n)} k <= n ==> nt(L, k) <= nt(L, n)
+
+//@ func evaluator.filter
+//@   tags C01 C17 C19 C20 C15 C18 C03 C06
+//@   ensures nonarray: !isArr(value) ==> result == nil && err == nil
+//@   ensures failure: err != nil ==> result == nil
+//@   ensures kind: isArr(value) && err == nil ==> isArr(result) && fresh(arr(result))
+//@   ensures[C01 C19 C20] preds: isArr(value) && err == nil ==> (forall k Int :: 0 <= k && k < len(arr(value)) ==> isEv(e.root, node, arr(value)[k], variables, log1[k]))
+//@   ensures[C01 C20] count: isArr(value) && err == nil ==> len(arr(result)) == nt(log1, len(arr(value)))
+//@   ensures[C01 C20] order: isArr(value) && err == nil ==> (forall k Int :: 0 <= k && k < len(arr(value)) && truthy(log1[k]) ==> arr(result)[nt(log1, k)] == arr(value)[k])
+//@   loop 1
+//@     invariant isArr(value0) && a == arr(value0) && fresh(r)
+//@     invariant forall k Int :: 0 <= k && k < iter ==> isEv(e.root, node, a[k], variables, log1[k])
+//@     invariant len(r) == nt(log1, iter)
+//@     invariant forall k Int :: 0 <= k && k < iter && truthy(log1[k]) ==> r[nt(log1, k)] == a[k]
+
+// number of elements that pass the filter and project to a non-null value
+//@ ghost nfp(F ValArr, P ValArr, n Int) Int = ite(n <= 0, 0, nfp(F, P, n - 1) + ite(truthy(F[n - 1]) && P[n - 1] != nil, 1, 0))
+//@ axiom forall F ValArr, P ValArr, n Int, i Int, v Val :: {nfp(upd(F, i, v), P, n)} i >= n ==> nfp(upd(F, i, v), P, n) == nfp(F, P, n)
+//@ axiom forall F ValArr, P ValArr, n Int, i Int, v Val :: {nfp(F, upd(P, i, v), n)} i >= n ==> nfp(F, upd(P, i, v), n) == nfp(F, P, n)
+//@ axiom forall F ValArr, P ValArr, n Int :: {nfp(F, P, n)} 0 <= nfp(F, P, n) && (n >= 0 ==> nfp(F, P, n) <= n)
+//@ axiom forall F ValArr, P ValArr, k Int, n Int :: {nfp(F, P, k), nfp(F, P, n)} 0 <= k && k < n && truthy(F[k]) && P[k] != nil ==> nfp(F, P, k) < nfp(F, P, n)
+//@ axiom forall F ValArr, P ValArr, k Int, n Int :: {nfp(F, P, k), nfp(F, P, n)} k <= n ==> nfp(F, P, k) <= nfp(F, P, n)
+
+//@ func evaluator.filterAndProjectArray
+//@   tags C01 C17 C19 C20 C15 C18 C03 C06
+//@   ensures nonarray: !isArr(value) ==> result == nil && err == nil
+//@   ensures failure: err != nil ==> result == nil
+//@   ensures kind: isArr(value) && err == nil ==> isArr(result) && fresh(arr(result))
+//@   ensures[C01 C17 C19 C20] preds: isArr(value) && err == nil ==> (forall k Int :: 0 <= k && k < len(arr(value)) ==> isEv(e.root, filter, arr(value)[k], variables, log1[k]))
+//@   ensures[C01 C17 C19] elems: isArr(value) && err == nil ==> (forall k Int :: 0 <= k && k < len(arr(value)) && truthy(log1[k]) ==> isEv(e.root, node, arr(value)[k], variables, log2[k]))
+//@   ensures[C01 C17] count: isArr(value) && err == nil ==> len(arr(result)) == nfp(log1, log2, len(arr(value)))
+//@   ensures[C01 C17] order: isArr(value) && err == nil ==> (forall k Int :: 0 <= k && k < len(arr(value)) && truthy(log1[k]) && log2[k] != nil ==> arr(result)[nfp(log1, log2, k)] == log2[k])
+//@   loop 1
+//@     invariant isArr(value0) && a == arr(value0) && fresh(r)
+//@     invariant forall k Int :: 0 <= k && k < iter ==> isEv(e.root, filter, a[k], variables, log1[k])
+//@     invariant forall k Int :: 0 <= k && k < iter && truthy(log1[k]) ==> isEv(e.root, node, a[k], variables, log2[k])
+//@     invariant len(r) == nfp(log1, log2, iter)
+//@     invariant forall k Int :: 0 <= k && k < iter && truthy(log1[k]) && log2[k] != nil ==> r[nfp(log1, log2, k)] == log2[k]
+
+//@ func evaluator.mapArray
+//@   tags C02 C17 C19 C15 C18 C03 C06
+//@   ensures nonarray: !isArr(value) ==> result == nil && isTypeErr(err)
+//@   ensures failure: err != nil ==> result == nil
+//@   ensures kind: isArr(value) && err == nil ==> isArr(result) && fresh(arr(result)) && len(arr(result)) == len(arr(value))
+//@   ensures[C02 C17 C19] elems: isArr(value) && err == nil ==> (forall k Int :: 0 <= k && k < len(arr(value)) ==> isEv(e.root, node, arr(value)[k], variables, log1[k]) && arr(result)[k] == log1[k])
+//@   loop 1
+//@     invariant isArr(value0) && a == arr(value0) && fresh(r) && len(r) == len(a)
+//@     invariant forall k Int :: 0 <= k && k < iter ==> isEv(e.root, node, a[k], variables, log1[k]) && r[k] == log1[k]
+
+// ---------------------------------------------------------------------------
+// lexical scopes (C19): nearest enclosing binding
+
+//@ ghost lookupOk(h Heap, s Int, k Int) Bool = s != 0 && (mhasKey(h, svars(h, s), k) || lookupOk(h, sparent(h, s), k))
+//@ ghost lookupVal(h Heap, s Int, k Int) Val = ite(mhasKey(h, svars(h, s), k), mgetKey(h, svars(h, s), k), lookupVal(h, sparent(h, s), k))
+
+//@ func variableScope.get
+//@   tags C19 C03 C06
+//@   note nil-receiver-ok
+//@   ensures found: result1 == lookupOk(heap, s, key(variable))
+//@   ensures value: result1 ==> result0 == lookupVal(heap, s, key(variable))
+//@   ensures absent: !result1 ==> result0 == nil
+
+//@ func variableScope.new
+//@   tags C19 C03 C06
+//@   note nil-receiver-ok
+//@   ensures result != nil && fresh(result) && sparent(heap, result) == s && svars(heap, result) == variables
+
+// ---------------------------------------------------------------------------
+// selectors on non-containers yield null (C01)
+
+//@ func field
+//@   tags C01 C03 C06 C16
+//@   ensures nonobject: !isObj(value) ==> result == nil
+//@   ensures member: isObj(value) ==> result == ite(has(obj(value), field), get(obj(value), field), nil)
+
+//@ func toArray
+//@   tags C02 C18 C06
+//@   ensures array: isArr(v) ==> result == v
+//@   ensures wrap: !isArr(v) ==> isArr(result) && fresh(arr(result)) && len(arr(result)) == 1 && arr(result)[0] == v
+
+//@ ghost nnq(h Heap, s Slice, n Int) Int = ite(n <= 0, 0, nnq(h, s, n - 1) + ite(at(h, s, n - 1) == nil, 0, 1))
+
+//@ axiom forall h Heap, s Slice, k Int, n Int :: {nnq(h, s, k), nnq(h, s, n)} 0 <= k && k < n && at(h, s, k) != nil ==> nnq(h, s, k) < nnq(h, s, n)
+//@ axiom forall h Heap, s Slice, k Int, n Int :: {nnq(h, s, k), nnq(h, s, n)} k <= n ==> nnq(h, s, k) <= nnq(h, s, n)
+//@ axiom forall h Heap, s Slice, n Int :: {nnq(h, s, n)} 0 <= nnq(h, s, n) && (n >= 0 ==> nnq(h, s, n) <= n)
+
+//@ func pruneArray
+//@   tags C01 C17 C03 C06
+//@   ensures nonarray: !isArr(v) ==> result == nil
+//@   ensures kind: isArr(v) ==> isArr(result)
+//@   ensures[C01 C17] count: isArr(v) ==> len(arr(result)) == nnq(old(heap), arr(v), len(arr(v)))
+//@   ensures[C01 C17] order: isArr(v) ==> (forall k Int :: 0 <= k && k < len(arr(v)) && arr(v)[k] != nil ==> arr(result)[nnq(old(heap), arr(v), k)] == arr(v)[k])
+//@   loop 1
+//@     invariant isArr(v0) && a == arr(v0)
+//@     invariant !n ==> len(r) == 0 && ref(r) == 0 && (forall k Int :: 0 <= k && k <= iter ==> nnq(old(heap), a, k) == k)
+//@     invariant n ==> len(r) == nnq(old(heap), a, iter) && fresh(r)
+//@     invariant n ==> (forall k Int :: 0 <= k && k < iter && a[k] != nil ==> r[nnq(old(heap), a, k)] == a[k])
+//@     invariant forall k Int :: 0 <= k && k <= iter ==> 0 <= nnq(old(heap), a, k) && nnq(old(heap), a, k) <= k
+
+// ---------------------------------------------------------------------------
+// internal error sentinels (C08)
+
+//@ func InvalidTypeError.Is
+//@   tags C08
+//@   ensures result == (target == global("evaluator.ErrInvalidType"))
+//@ func UndefinedVariableError.Is
+//@   tags C08
+//@   ensures result == (target == global("evaluator.ErrUndefinedVariable"))
+//@ func fromItemsKeyTypeError.Is
+//@   tags C08
+//@   ensures result == (target == global("evaluator.ErrInvalidValue"))
+//@ func fromItemsLengthError.Is
+//@   tags C08
+//@   ensures result == (target == global("evaluator.ErrInvalidValue"))
+//@ func integerConversionError.Is
+//@   tags C08
+//@   ensures result == (target == global("evaluator.ErrInvalidValue"))
+//@ func negativeIntegerError.Is
+//@   tags C08
+//@   ensures result == (target == global("evaluator.ErrInvalidValue"))
+//@ func padLengthError.Is
+//@   tags C08
+//@   ensures result == (target == global("evaluator.ErrInvalidValue"))
